@@ -1120,16 +1120,6 @@ pub fn random_sentence_mode(cfg: &Cfg, an: &Analysis, rng: &mut Rng, target: usi
     if !an.productive[cfg.start] {
         return None;
     }
-    let preferred: Vec<Option<usize>> = (0..cfg.nn)
-        .map(|n| {
-            let c: Vec<usize> = cfg.rules_of(n).filter(|r| an.rule_min_len[*r] != usize::MAX).collect();
-            if c.is_empty() {
-                None
-            } else {
-                Some(*rng.pick(&c))
-            }
-        })
-        .collect();
     let (height, rule_height) = heights(cfg);
     // recursive rules (some right-hand-side nonterminal derives a form containing the left-hand side):
     // while far below the target they are preferred, so that long sentences really are long lists /
@@ -1159,6 +1149,21 @@ pub fn random_sentence_mode(cfg: &Cfg, an: &Analysis, rng: &mut Rng, target: usi
     } else {
         vec![false; cfg.rules.len()]
     };
+    // the preferred rule of the monotone mode: mostly a RECURSIVE one (a pure list / a deep nesting that
+    // really grows to the target length), whatever the random stream looks like
+    let preferred: Vec<Option<usize>> = (0..cfg.nn)
+        .map(|n| {
+            let c: Vec<usize> = cfg.rules_of(n).filter(|r| an.rule_min_len[*r] != usize::MAX).collect();
+            let rec: Vec<usize> = c.iter().copied().filter(|r| recursive[*r]).collect();
+            if c.is_empty() {
+                None
+            } else if !rec.is_empty() && rng.chance(0.85) {
+                Some(*rng.pick(&rec))
+            } else {
+                Some(*rng.pick(&c))
+            }
+        })
+        .collect();
     let mut out = vec![];
     let mut stack = vec![Sym::N(cfg.start)];
     let mut rest_min: usize = an.min_len[cfg.start];
